@@ -241,6 +241,39 @@ func (m *Model) RunLayout(s *Sink, rule string) {
 			}
 		}
 		check(fnKey(cdi)+"|reports the duplicate", m.Pos(cdi.Pos()), okErr, "the duplicate outcome records a parser error", "a duplicate insert is detected but no error is recorded")
+		// "not a duplicate" is answered only where the table has no insert of that name
+		okMiss, nFalse := true, 0
+		for _, b := range cdi.Blocks {
+			ret, isRet := b.Instrs[len(b.Instrs)-1].(*ssa.Return)
+			if !isRet || len(ret.Results) != 1 {
+				continue
+			}
+			if k, isK := ret.Results[0].(*ssa.Const); !isK || k.Value == nil || k.Value.String() != "false" {
+				continue
+			}
+			nFalse++
+			miss := false
+			for _, f := range expandFacts(factsAt(b)) {
+				if ex, isEx := f.Cond.(*ssa.Extract); isEx && ex.Index == 1 && !f.Holds {
+					if lk, isLk := ex.Tuple.(*ssa.Lookup); isLk && strings.HasSuffix(fieldPathOf(lk.X), ".inserts") {
+						miss = true
+					}
+				}
+				if bo, isBo := f.Cond.(*ssa.BinOp); isBo && (bo.Op == token.EQL || bo.Op == token.NEQ) && (bo.Op == token.EQL) == f.Holds {
+					for _, pr := range [][2]ssa.Value{{bo.X, bo.Y}, {bo.Y, bo.X}} {
+						if lk, isLk := pr[0].(*ssa.Lookup); isLk && isNilConst(pr[1]) && strings.HasSuffix(fieldPathOf(lk.X), ".inserts") {
+							miss = true
+						}
+					}
+				}
+			}
+			if !miss {
+				okMiss = false
+			}
+		}
+		if nFalse > 0 {
+			check(fnKey(cdi)+"|answers \"no duplicate\" only when the name is free", m.Pos(cdi.Pos()), okMiss, "every `return false` lies on the miss edge of the lookup in the table of inserts", "the duplicate check can answer \"no duplicate\" without having looked the name up (an early return under another condition): two inserts with one name are accepted there and the later one silently replaces the earlier")
+		}
 	}
 	// ApplyLayout replaces the page's statements by the use statement
 	al := m.Method("ast", "Program", "ApplyLayout")
